@@ -47,6 +47,12 @@ def gen(rng, tier):
             # reply carry the same one (RPC request / result pairs)
             if rng.random() < 0.3:
                 m['uid'] = 'rpc.%04d' % rng.randint(0, 2)
+            # not every message is a `cmd` message: the reply to an RPC
+            # request is a typed message without a command
+            if kind in ('raw_control', 'comp_control') and \
+                    rng.random() < 0.2:
+                m['shape'] = 'rpc_res'
+                m['uid'] = 'rpc.%04d' % rng.randint(0, 2)
         msgs.append(m)
     ops = [['msg', m] for m in msgs]
     if rng.random() < 0.3 and len(ops) > 1:
@@ -82,6 +88,8 @@ def run(seed, scenario, trace=None, tier='quick'):
             if m.get('mid') is not None:
                 out.append(m['mid'])
             for uid, state in m.get('things') or []:
+                if isinstance(state, str) and state.startswith('mid:'):
+                    out.append(int(state[4:]))
                 if isinstance(uid, str) and uid.startswith('task.m'):
                     out.append(int(uid[6:]))
             return out
@@ -90,6 +98,8 @@ def run(seed, scenario, trace=None, tier='quick'):
             out = list()
             if msg.get('mid') is not None:
                 out.append(msg['mid'])
+            if isinstance(msg.get('val'), dict) and 'mid' in msg['val']:
+                out.append(msg['val']['mid'])
             for t in ru.as_list(msg.get('arg')) or []:
                 if isinstance(t, dict) and str(t.get('uid', '')).startswith(
                         'task.m'):
@@ -193,6 +203,13 @@ def run(seed, scenario, trace=None, tier='quick'):
                             else rpc.STATE_PUBSUB
                         msg = {'cmd': 'noop_%d' % m['id'], 'arg': None,
                                'mid': m['id']}
+                        if m.get('shape') == 'rpc_res':
+                            from radical.pilot.messages import \
+                                RPCResultMessage
+                            msg = RPCResultMessage(uid=m['uid'],
+                                                   val={'mid': m['id']})
+                            if m['fwd'] == 'absent':
+                                del msg['fwd']
                         if m['fwd'] != 'absent':
                             msg['fwd'] = m['fwd']
                         if m.get('uid'):
